@@ -275,7 +275,26 @@ void save_svalue (svalue_t * v, char **buf) {
     }
 }
 
+static int restore_internal_size_1 (char **str, int is_mapping, int depth);
+
+/* Nesting of the value being scanned. The top-level container is scanned by
+ * restore_size(), so this counts from the second level. Text nested deeper than
+ * save_svalue() can ever produce is refused instead of recursing without bound.
+ */
+static int restore_nesting = 0;
+
 static int restore_internal_size (char **str, int is_mapping, int depth) {
+  int ret;
+
+  if (restore_nesting >= MAX_SAVE_SVALUE_DEPTH - 1)
+    return 0;
+  restore_nesting++;
+  ret = restore_internal_size_1 (str, is_mapping, depth);
+  restore_nesting--;
+  return ret;
+}
+
+static int restore_internal_size_1 (char **str, int is_mapping, int depth) {
   register char *cp = *str;
   int size = 0;
   char c, delim, index = 0;
